@@ -12,7 +12,7 @@ PROP = "C05"
 TECHNIQUE = (
     "exhaustive enumeration of a generated family of class hierarchies (both depth-counting modes); the analysis "
     "results are compared with an independent least-fixed-point / graph-search reference that is itself validated "
-    "against the enumerated bounded language; usable_grammar() compared by exhaustive choice-tree enumeration (E1)"
+    "against the enumerated bounded language; usable_grammar() compared by exhaustive choice-tree enumeration (E1); the analysis of a grammar is re-checked after sibling grammars over the same class objects (one production left out each, other depth mode) were extracted; every iteration order of the symbol sets for small hierarchies"
 )
 RULE = (
     "unit = hierarchy spec x depth mode; oracle per registered symbol: productions, minimum depth, recursive flag, "
